@@ -196,6 +196,32 @@ pub fn run(g: &mut Global) {
     if g.tier == Tier::Thorough {
         g.random("deep", 3000, &move || strategy(64, true), &check);
     }
+    // histories whose length sits just below / at / above 2^8 and 2^16 when reset() is called: a narrow
+    // counter or an occasional re-synchronisation that reset() forgets about would fire during warm-up
+    let seed = g.seed;
+    const LENS: [usize; 6] = [255, 256, 257, 65_535, 65_536, 65_537];
+    g.exhaustive(
+        "counter_wrap",
+        22 * 2 * 6 * 8,
+        &move |i| {
+            let d = (i % 8) as usize;
+            let r = i / 8;
+            let l = LENS[(r % 6) as usize];
+            let r = r / 6;
+            let n = [3usize, 6][(r % 2) as usize];
+            let kind: Kind = ALL_KINDS[(r / 2) as usize];
+            let mut st = seed ^ (i + 1).wrapping_mul(0xD6E8FEB86659FD93);
+            let mut mk = |st: &mut u64| {
+                let u = unit(st);
+                let v = 20.0 + 10.0 * u;
+                Inp { bar: crate::adapter::RawBar { o: v, h: v + 1.0 + u, l: v - 1.0, c: v + 0.5 - u, v: 1.0 + (u * 50.0).round() }, scalar: u > 0.4 }
+            };
+            let history: Vec<HOp> = (0..l.saturating_sub(d)).map(|_| HOp::Next(mk(&mut st))).collect();
+            let continuation: Vec<Inp> = (0..n + 12).map(|_| mk(&mut st)).collect();
+            Case { cfg: cfg_small(kind, n), history, continuation }
+        },
+        &check,
+    );
     if g.tier == Tier::Thorough {
         g.fuzz_stage("ops_equiv", Some(0), 2_000_000, "random", &|b| crate::fuzzdec::decode_c04(b), &check);
     }
